@@ -1,6 +1,6 @@
 (* C17 - raising the read limit never loses a binary identification. *)
 From Verif Require Import Base.Bytes Model.Types Model.GoLite Model.Zip Model.Detect Gen.TreeData
-  Proofs.GoLiteP Proofs.MonoP Proofs.DetectP.
+  Proofs.GoLiteP Proofs.MonoP Proofs.DetectP Gen.SigData Model.Detectors Gen.FuncTerms Proofs.TranslateP.
 
 (* the analysis behind the data obligation: a term classified monotone keeps a positive verdict
    under every extension of the header *)
@@ -34,3 +34,10 @@ Print Assumptions C17_limit_monotone.
 (* non-vacuity: a PNG header is binary at limit 8 *)
 Example C17_png_binary : binary_path (detect_path (fun _ _ _ => false) 8 ([137;80;78;71;13;10;26;10;0;0]%N)) = true.
 Proof. vm_compute. reflexivity. Qed.
+
+(* regenerated obligation: the terms the monotonicity analysis classifies are the bodies in the CURRENT source - every
+   hand-written function term and every prefix / offset / ftyp / jpeg2k signature (equal up to the normalisation proved
+   to preserve result and Panic) *)
+Theorem C17_analysed_terms_are_the_source : translation_agrees && comb_translation_agrees = true.
+Proof. vm_compute. reflexivity. Qed.
+Print Assumptions C17_analysed_terms_are_the_source.
